@@ -1570,6 +1570,8 @@ func (mgr *Manager) convertStreamJob(allConverters []*converters.CachedConverter
 					results <- result{job, err}
 					return
 				}
+				// The stream isn't in any index file, report that so the job can finish
+				results <- result{job, fmt.Errorf("stream %d not found in any index", job.streamID)}
 			}()
 		}
 
